@@ -5,7 +5,7 @@ From Coq Require Import ZArith List String Ascii Bool Permutation.
 From Gen Require Import Elements TokenTables SmartsTables.
 From Model Require Import PyBase Graph PeriodicTable Tokenize Smarts Query SmartsFull.
 From Model Require Parser.
-From Proofs Require Import QueryProofs TokenizeProofs SmartsProofs SmartsRoundtrip SmartsParser SmartsFullProofs SmartsDenote SmartsDenoteText SmartsTree SmartsTreeText SmartsStereo SmartsRing SmartsRingText.
+From Proofs Require Import QueryProofs TokenizeProofs SmartsProofs SmartsRoundtrip SmartsParser SmartsFullProofs SmartsDenote SmartsDenoteText SmartsTree SmartsTreeText SmartsStereo SmartsRing SmartsRingText SmartsMolMatch SmartsPins SmartsNumbers.
 Import ListNotations.
 Open Scope Z_scope.
 
@@ -517,7 +517,7 @@ Proof. exact ring_item. Qed.
 Print Assumptions C08_ring_item.
 
 (* Text level: for EVERY text of the grammar
-     tree := atom ( bond digit )* ( "(" bond tree ")" )* ( bond tree )?       digit := 1 .. 9   (the %nn form is not covered)
+     tree := atom ( bond closure )* ( "(" bond tree ")" )* ( bond tree )?     closure := 1 .. 9 | %10 .. %99
    smarts() builds the atoms written, in order, the bonds of the tree and the ring bonds of den_root - provided den_root closes
    every digit, no bond joins an atom to itself and no two bonds join the same atoms (otherwise smarts() rejects the text) *)
 Theorem C08_ring_text_denotation : forall t qs bonds,
@@ -532,12 +532,102 @@ Print Assumptions C08_ring_text_denotation.
 
 Theorem C08_ring_text_example :
   xok_tree ex_xtree /\
-  string_of_list_ascii (text_xtree ex_xtree) = "[C;D3]1(=O)c-,=N-;@1"%string /\
+  string_of_list_ascii (text_xtree ex_xtree) = "[C;D3]%12(=O)c-,=N-;@%12"%string /\
   den_root (to_rtree ex_xtree) = Some ([], [(1, 0, PInt 2); (2, 0, PInt 1); (3, 2, PZs [1; 2]); (3, 0, PQB [1] true)]) /\
   distinct_pairs [] [(1, 0, PInt 2); (2, 0, PInt 1); (3, 2, PZs [1; 2]); (3, 0, PQB [1] true)] /\
-  smarts_full "[C;D3]1(=O)c-,=N-;@1" =
+  smarts_full "[C;D3]%12(=O)c-,=N-;@%12" =
   Ok ([(QElem 6 None (mkQX 0 false [3] [] [] [] [] false), None); (QElem 8 None (mkQX 0 false [] [] [] [] [] false), None);
        (QElem 6 None (mkQX 0 false [] [] [] [] [] false), None); (QElem 7 None (mkQX 0 false [] [] [] [] [] false), None)],
       [mkSB 1 0 (mkQB [2] None) None; mkSB 2 0 (mkQB [1] None) None; mkSB 3 2 (mkQB [1; 2] None) None; mkSB 3 0 (mkQB [1] (Some true)) None]).
 Proof. exact ring_text_example. Qed.
 Print Assumptions C08_ring_text_example.
+
+(* ---------------------------------------------------------------------------------------------------------------- *)
+(* query atoms and bonds against MOLECULE atoms and bonds (the labels are no longer a parameter of the statement): for a molecule
+   graph g, its ring set and atom n, the comparison method applied to the atom as calc_labels labels it is total and true exactly
+   when the GRAPH satisfies the documented condition: element / list / any / metal, charge, radical, isotope; the number of
+   non-special bonds of n is in D; the number of those to atoms other than H and C is in x; hyb_spec of the bond orders of n is
+   in z (4 = has an aromatic bond = the primitive a); the hydrogen count is in h; r: some ring of the set through n has a listed
+   size, !R: no ring of the set goes through n *)
+Theorem C08_match_in_mol : forall q g sssr n a, tuple_rings q = true -> atom_of g n = Some a ->
+  exists la b, labelled g sssr n = Some la /\ match_atom q la = Ok b /\ (b = true <-> atom_spec_mol q g sssr n a).
+Proof. exact match_in_mol. Qed.
+Print Assumptions C08_match_in_mol.
+
+Theorem C08_smarts_match_in_mol : forall body q g sssr n a, smarts_atom body = Ok q -> atom_of g n = Some a ->
+  exists la b, labelled g sssr n = Some la /\ match_atom q la = Ok b /\ (b = true <-> atom_spec_mol q g sssr n a).
+Proof. exact smarts_match_in_mol. Qed.
+Print Assumptions C08_smarts_match_in_mol.
+
+Theorem C08_rings_ok_mol_iff : forall q sssr n, rings_ok q (ring_sizes_of sssr n) <-> rings_ok_mol q sssr n.
+Proof. exact rings_ok_mol_iff. Qed.
+Print Assumptions C08_rings_ok_mol_iff.
+
+(* a query bond against the bond n-m of the molecule: order listed, and the ring mark (if any) agrees with "not a special bond
+   and both ends in a common ring of the set" *)
+Theorem C08_qbond_in_mol : forall q g sssr n m b, bond_of g n m = Some b ->
+  exists ring, bond_ring_label g sssr n m = Some ring /\ (ring = true <-> mol_bond_in_ring b sssr n m) /\
+    (qbond_match q (mkLB (b_ord b) ring) = true <->
+       In (b_ord b) (qb_ord q) /\ (qb_ring q = None \/ (qb_ring q = Some true /\ mol_bond_in_ring b sssr n m) \/
+                                    (qb_ring q = Some false /\ ~ mol_bond_in_ring b sssr n m))).
+Proof. exact qbond_in_mol. Qed.
+Print Assumptions C08_qbond_in_mol.
+
+Theorem C08_match_in_mol_example :
+  (exists q la, smarts_atom (s2l "N;D2;a;r6") = Ok q /\ labelled pyridine [[1; 2; 3; 4; 5; 6]] 1 = Some la /\ match_atom q la = Ok true) /\
+  (exists q la, smarts_atom (s2l "N;h1") = Ok q /\ labelled pyridine [[1; 2; 3; 4; 5; 6]] 1 = Some la /\ match_atom q la = Ok false) /\
+  (exists q, bond_of_spelling "-,:;@" = Ok q /\ bond_ring_label pyridine [[1; 2; 3; 4; 5; 6]] 1 2 = Some true /\
+             qbond_match q (mkLB 4 true) = true).
+Proof. exact match_in_mol_example. Qed.
+Print Assumptions C08_match_in_mol_example.
+
+(* ---------------------------------------------------------------------------------------------------------------- *)
+(* branch order and constants of the modelled methods, regenerated from the source on every run (tests of every if / elif in
+   source order): the three extended classes share one tail (Query.match_tail); from_symbol / from_atom; the label loop *)
+Theorem C08_eq_branches_pinned :
+  eq_tests_QueryElement = (model_head_q ++ model_tail_tests)%list /\ eq_tests_AnyElement = (model_head_any ++ model_tail_tests)%list /\
+  eq_tests_ListElement = (model_head_list ++ model_tail_tests)%list /\ eq_tests_AnyMetal = model_metal /\
+  eq_tests_QueryBond = ["isinstance(other, Bond)"; "self.in_ring is not None"; "self.in_ring != other.in_ring";
+                        "isinstance(other, QueryBond)"; "isinstance(other, int)"]%string.
+Proof. exact eq_branches_pinned. Qed.
+Print Assumptions C08_eq_branches_pinned.
+
+Theorem C08_from_atom_pinned :
+  from_symbol_tests = ["symbol == 'A'"; "symbol == 'M'"]%string /\
+  from_atom_tests = ["not isinstance(atom, Element)"; "neighbors"; "hybridization"; "heteroatoms"; "ring_sizes";
+                     "hydrogens and atom.implicit_hydrogens is not None"; "stereo"]%string /\
+  from_atom_assigns = ["query._charge = atom.charge"; "query._heteroatoms = (atom.heteroatoms,)";
+                       "query._hybridization = (atom.hybridization,)"; "query._implicit_hydrogens = (atom.implicit_hydrogens,)";
+                       "query._is_radical = atom.is_radical"; "query._neighbors = (atom.neighbors,)";
+                       "query._ring_sizes = tuple(sorted(atom.ring_sizes)) or (0,)"; "query._stereo = atom.stereo"]%string.
+Proof. exact from_atom_pinned. Qed.
+Print Assumptions C08_from_atom_pinned.
+
+Theorem C08_calc_labels_pinned :
+  calc_labels_tests = ["bond == 8"; "bond == 4"; "hybridization != 4"; "bond == 3"; "bond == 2"; "hybridization == 1";
+                       "hybridization == 2"; "(a := atoms[m]) == H"; "a != C"]%string /\
+  calc_labels_hyb_values = ["1"; "4"; "3"; "2"; "3"]%string.
+Proof. exact calc_labels_pinned. Qed.
+Print Assumptions C08_calc_labels_pinned.
+
+(* ---------------------------------------------------------------------------------------------------------------- *)
+(* atom numbers (Model.SmartsFull.atom_numbers: explicit numbers kept; the other atoms get consecutive numbers above every
+   explicit one; masked atoms take the process-wide counter g0 + rank): all numbers of a query are distinct *)
+Theorem C08_numbers_nodup : forall g0 ps,
+  NoDup (explicit_of ps) -> (forall k, In k (explicit_of ps) -> 1 <= k) ->
+  max_explicit ps + 1 + Z.of_nat (List.length ps) <= g0 ->
+  NoDup (map (num_value g0) (atom_numbers ps)).
+Proof. exact numbers_nodup. Qed.
+Print Assumptions C08_numbers_nodup.
+
+Theorem C08_numbers_explicit : forall ps free masked i p, nth_error ps i = Some p ->
+  exists a, nth_error (assign_numbers ps free masked) i = Some a /\
+            match p_mapping p with Some k => a = NGiven k | None => if p_masked p then exists j, a = NMasked j /\ masked <= j
+                                                                 else exists k, a = NGiven k /\ free <= k end.
+Proof. exact numbers_explicit. Qed.
+Print Assumptions C08_numbers_explicit.
+
+Theorem C08_numbers_example :
+  smarts_numbers "[C:7]C[N;M:2][O;M]C[S;M]" = Ok [NGiven 7; NGiven 8; NGiven 2; NMasked 0; NGiven 9; NMasked 1].
+Proof. exact numbers_example. Qed.
+Print Assumptions C08_numbers_example.
